@@ -18,6 +18,7 @@ import RSVerif.Proofs.SrcKernelSpec
 import RSVerif.Proofs.SrcShardsSpec
 import RSVerif.Proofs.SrcGlueSpec
 import RSVerif.Proofs.SrcKernelFlat
+import RSVerif.Gen.Statics
 
 namespace RS
 open ShardAlg
@@ -317,6 +318,15 @@ theorem source_butterflies_on_flat_memory (m : Nat) (f : Flat) (hs : f.data.size
                    (v.1.get f.data).toList (v.2.get f.data).toList
         f.putDist2 pos dist r.1.toArray r.2.toArray) = f.ifftBfly (gexp m) pos dist :=
   ⟨src_fft_butterfly_on_flat m f hs pos dist, src_ifft_butterfly_on_flat m f hs pos dist⟩
+
+/-- every engine primitive is a function of its arguments and the five tables ONLY: today's source (outside test modules,
+    `Gen/Statics.lean`, regenerated by `/verif/translate/statics.py` on every run) declares no global state besides the five
+    `LazyLock` tables and uses no API through which the environment of the process could reach a result — no threads,
+    no CPU count, no environment variables, clocks, files, random numbers — and asks the CPU for its features only in
+    `engine_default.rs`. (The contents of the tables are C15's `source_tables_and_integer_code` / `source_mul_tables`.) -/
+theorem source_engines_take_no_ambient_input :
+    RS.Gen.ambientUses = [] ∧ RS.Gen.featureDetectionsOutsideDefaultEngine = 0 ∧
+    RS.Gen.statics.map Prod.fst = [0, 1, 3, 2, 4] ∧ RS.Gen.threadLocals = 0 ∧ RS.Gen.staticMuts = 0 := by decide
 
 open RS.SrcG RS.RustG in
 /-- the ENTRY POINTS of the engines in today's source (`Gen/SrcGlue.lean`): `Engine::{fft, ifft, mul, eval_poly}` of
